@@ -234,7 +234,7 @@ class Verdict:
             unlisted += 1
             os.makedirs(rdir, exist_ok=True)
             path = os.path.join(rdir, f"{digest([mech, v['case']])}.json")
-            with open(path, "w") as f:
+            with open(path, "w", errors="backslashreplace") as f:  # unpaired surrogates in sample strings stay valid JSON escapes
                 json.dump({"property": self.prop, "mechanism": mech, "occurrences": self.viol_count[mech],
                            "seed": seed(), "tier": tier(), "case": v["case"], "witness": v["witness"],
                            "repo": state}, f, indent=1, default=repr, ensure_ascii=False)
@@ -290,7 +290,7 @@ class Verdict:
         }
         evdir = os.environ.get("J2M_VERIF_EVIDENCE_DIR") or os.path.join(VERIF, "evidence")
         os.makedirs(evdir, exist_ok=True)
-        with open(os.path.join(evdir, f"{self.prop}.json"), "w") as f:
+        with open(os.path.join(evdir, f"{self.prop}.json"), "w", errors="backslashreplace") as f:
             json.dump(ev, f, indent=1, default=repr, ensure_ascii=False)
         for ln in lines:
             print(ln)
@@ -299,6 +299,10 @@ class Verdict:
         print(summary)
         interesting = {k: v for k, v in self.counters.items()}
         print(f"  monitors: {json.dumps(interesting, sort_keys=True)}")
+        herr = {k: n for k, n in self.inconclusive_why.items() if k.startswith("harness error")}
+        if herr:
+            # not a verdict on the repository, but never silent: the monitor could not judge these executions
+            print(f"NOTE property={self.prop} {sum(herr.values())} executions could not be judged (harness error): {list(herr)[:2]}")
         if unlisted:
             return 1
         if reasons:
